@@ -1124,7 +1124,11 @@ func (c *ctx) mainFlow(replay string, keep bool) int {
 		return code
 	}
 	for _, p := range c.spec.Parts {
-		if code := runPart(p.Scenario, c.ts.Runs*p.Percent/100, c.ts.Budget*time.Duration(p.Percent)/100, p.Scenario+":"); code != 0 {
+		pb := c.ts.Budget * time.Duration(p.Percent) / 100
+		if pb < 25*time.Second {
+			pb = 25 * time.Second // (workers stop when less than 5 s of their budget are left)
+		}
+		if code := runPart(p.Scenario, c.ts.Runs*p.Percent/100, pb, p.Scenario+":"); code != 0 {
 			return code
 		}
 	}
